@@ -391,6 +391,31 @@ AlignConsistent(pre) ==
   \A order \in Orders(pre.ivs[1].blocks) : \A g \in Range(GroupsOf(order)) : GroupConsistent(pre, g)
 
 (***************************************************************************)
+(* LEVEL A: the empty rewrite.  RewritingContext(module).apply() without   *)
+(* modifications: symbols, CFG, function tables, sections, entry point and *)
+(* the other intervals are unchanged, the only new aux table is            *)
+(* leafFunctions, and an interval that is fully initialized and aligned is *)
+(* unchanged itself; what may happen to the other intervals is bounded by  *)
+(* C10_PaddingLegal / C10_AlignmentHolds on split followed by join.        *)
+(* x = the module-level observations of runner.module_extras.              *)
+(***************************************************************************)
+ExtDiag(a, b) ==
+  IF a.syms # b.syms THEN "symbols"
+  ELSE IF a.edges # b.edges THEN "cfg"
+  ELSE IF a.fns # b.fns THEN "function_tables"
+  ELSE IF a.secs # b.secs THEN "sections"
+  ELSE IF a.entry # b.entry \/ a.nproxy # b.nproxy THEN "entry_or_proxies"
+  ELSE IF Range(b.aux) # Range(a.aux) \cup {"leafFunctions"} THEN "aux_tables"
+  ELSE "ok"
+EmptyApplyDiag(pre1, post1, otherPre, otherPost, prex, postx) ==
+  IF otherPost # otherPre THEN "other_interval"
+  ELSE IF ExtDiag(prex, postx) # "ok" THEN ExtDiag(prex, postx)
+  ELSE IF Invertible(pre1) THEN InvertDiag(pre1, post1)
+  ELSE "ok"
+C10_EmptyApplyIdentity(pre1, post1, otherPre, otherPost, prex, postx) ==
+  EmptyApplyDiag(pre1, post1, otherPre, otherPost, prex, postx) = "ok"
+
+(***************************************************************************)
 (* LEVEL B: join_byte_intervals, line by line.                             *)
 (***************************************************************************)
 JoinB(st, nop, T) ==
